@@ -43,6 +43,9 @@ loops, scf.while as context) with shapes aimed at what the pass rewrites (read f
   * flatten: perfectly nested scf.for pairs with bounds defined outside the nest (progen bound "hoist"), with the
     two induction variables either unused or combined by one addi, inner range = outer step etc., iter_args
     threaded through, plus near misses;
+  * all scf.for passes: a deterministic enumeration of constant-bound loops (trip counts 0..3) with 2-3 iter_args
+    whose scf.yield forwards / swaps / rotates iter_args, the induction variable or a body value (every assignment),
+    and a random shape of the same kind;
   * licm: scf.for (nested, zero-trip) whose bodies hold loop-invariant arithmetic (incl. division by loop-invariant
     divisors), loop-variant arithmetic, effects, and load/modify/store of memory at loop-invariant addresses;
   * control-flow-hoist: scf.if / affine.if with pure, effectful and trapping contents, in particular branches that
@@ -745,10 +748,59 @@ def unroll_programs(pname="scf-for-loop-unroll"):
         inner = loop(st.lists(lv[0], max_size=3))
         outer = loop(_cat(st.lists(lv[0], max_size=2), st.lists(inner, min_size=1, max_size=1),
                           st.lists(lv[0], max_size=2)))
+        # 2-3 iteration arguments of ONE type and yield refs that reach past the body's values: the yield forwards /
+        # permutes iteration arguments (and the induction variable when it has that type)
+        def perm(ty, n, inits, bd, ys):
+            # the loop results are printed (newest values of the type) so that a wrong final value is observable
+            return [_for(t, _c(inits[0] % 3 - 1), _c(1 + inits[1] % 4), _c(1 + inits[2] % 2),
+                         [[ty, r] for r in inits[:n]], bd, ys[:n]),
+                    {"op": "print", "k": 1, "args": [[ty, j] for j in range(n)]}]
+        perm_loop = st.builds(perm, st.sampled_from([x for x in vt if x != "i1"] + [t]), st.sampled_from([2, 2, 3]),
+                              st.lists(st.integers(0, 5), min_size=3, max_size=3), st.lists(lv[0], max_size=2),
+                              st.lists(st.integers(0, 5), min_size=3, max_size=3))
         one = st.one_of(loop(st.lists(lv[1], max_size=4)), loop(st.lists(lv[0], max_size=4)), outer)
-        body = _cat(st.lists(lv[0], max_size=3), st.lists(one, min_size=1, max_size=3), st.lists(lv[0], max_size=2))
+        body = _cat(st.lists(lv[0], max_size=3), st.lists(one, max_size=2), perm_loop, st.lists(one, max_size=1),
+                    st.lists(lv[0], max_size=2))
         return _func_recipes(body, vt, pname)
     return _with_types(mk)
+
+
+# ---- deterministic enumeration: yields that forward / permute block arguments -------------------------
+
+YIELD_PASSES = ["scf-for-loop-unroll", "convert-scf-to-cf", "licm", "scf-for-loop-range-folding", "scf-for-loop-flatten"]
+
+
+def yield_perm_recipes(full: bool):
+    """Constant-bound scf.for over index with n = 2, 3 index-typed iter_args whose scf.yield takes every assignment of
+    its operands over {iter_args, induction variable, one value computed in the body}; trip counts 0..3.  For
+    flatten the same yields sit in the inner loop of a perfect nest whose iter_args are threaded through.
+    quick: n = 2 all 16 assignments, n = 3 the 27 assignments over the iter_args; thorough: n = 3 all 125."""
+    import itertools
+    out = []
+    for n in (2, 3):
+        choices = list(range(n)) + (["iv", "body"] if (n == 2 or full) else [])
+        for assign in itertools.product(choices, repeat=n):
+            # body scope, newest first, after the one body statement: body value 0, it_j at n - j, iv at n + 1
+            y = [0 if c == "body" else n + 1 if c == "iv" else n - c for c in assign]
+            inits = [["index", n - 1 - j] for j in range(n)]           # function arguments a_0 .. a_{n-1}
+            rets = [["index", n - 1 - j] for j in range(n)]            # loop results r_0 .. r_{n-1}
+            fargs = ["index"] * n
+            for pname in YIELD_PASSES:
+                if pname == "scf-for-loop-flatten":
+                    for ot, it in ((0, 2), (1, 1), (2, 1), (1, 2), (2, 2)):
+                        inner = _for("index", _hc(0), _hc(it), _hc(1), [["index", n - 1 - j] for j in range(n)],
+                                     [{"op": "addi", "t": "index", "a": n - 1, "b": n - 1}], y)
+                        outer = _for("index", _hc(0), _hc(ot), _hc(1), inits, [inner], [n - 1 - j for j in range(n)])
+                        out.append({"kind": "pass", "pass": pname, "funcs": [{"args": fargs, "body": [outer], "ret": rets}],
+                                    "inputs": [9, 14, 22, 3, 17, 6], "ib": 64})
+                    continue
+                for trips in (0, 1, 2, 3):
+                    # body value = iv + a_{n-1} (an outside value: foldable when the yield does not use the iv)
+                    loop = _for("index", _c(0), _c(trips), _c(1), inits,
+                                [{"op": "addi", "t": "index", "a": n, "b": n + 1}], y)
+                    out.append({"kind": "pass", "pass": pname, "funcs": [{"args": fargs, "body": [loop], "ret": rets}],
+                                "inputs": [9, 14, 22, 3, 17, 6], "ib": 64})
+    return out
 
 
 # ---- range folding: iv used once by addi/muli with an outside value ----------------------------
@@ -1060,6 +1112,9 @@ def replay(h, recipe):
 
 def checks(h):
     _init()
+    for i, r in enumerate(yield_perm_recipes(full=not h.quick)):
+        if i % h.nshards == h.shard:
+            run_case(h, r, "enum:yield_perm")
     unit = h.scale(8, 120)
     for salt, (cname, strat, weight) in enumerate(campaigns()):
         h.hyp(cname, strat, lambda r, cname=cname: run_case(h, r, cname), unit * weight, salt + 1)
